@@ -127,6 +127,26 @@ impl<Fut: Future> FuturesOrdered<Fut> {
     }
 }
 
+#[cfg(futures_buffered_verif)]
+impl<Fut: Future> FuturesOrdered<Fut> {
+    /// Verification only: start both position counters of an *empty* queue at `start`.
+    pub fn verif_seed_indices(&mut self, start: usize) {
+        assert!(self.is_empty());
+        self.next_incoming_index = Wrapping(start);
+        self.next_outgoing_index = Wrapping(start);
+    }
+
+    /// Verification only: `(next_outgoing_index, next_incoming_index)`.
+    pub fn verif_indices(&self) -> (usize, usize) {
+        (self.next_outgoing_index.0, self.next_incoming_index.0)
+    }
+
+    /// Verification only: `(capacity, len, waker block address)` of every internal group.
+    pub fn verif_groups(&self) -> alloc::vec::Vec<(usize, usize, usize)> {
+        self.in_progress_queue.verif_groups()
+    }
+}
+
 impl<Fut: Future> Default for FuturesOrdered<Fut> {
     fn default() -> Self {
         Self::new()
